@@ -125,6 +125,7 @@ func checkC08(p *ana.Prog, r *ana.Result) {
 	c08Sources(p, r, ts)
 	c08Fatal(p, r, ts, pset)
 	c08PacketConn(p, r, ts)
+	c08Accept(p, r)
 	c08Cmsg(p, r, ts)
 	c08Progress(p, r, ts, pset)
 	c08Bounds(p, r, ts, pset)
@@ -1147,4 +1148,194 @@ func lengthEstablishedByEarlierCall(p *ana.Prog, ts *ana.TaintState, f *ssa.Func
 		return false, ""
 	}
 	return true, fmt.Sprintf("all %d call sites pass the address that %s has just left with length %d", sites, est, k)
+}
+
+// ---- C08.accept ---------------------------------------------------------------------
+
+// isLibAccept: a call of an Accept method of a listener declared outside the repo.
+func isLibAccept(c *ssa.CallCommon) bool {
+	name := ana.CalleeName(c)
+	if !strings.HasSuffix(name, ").Accept") {
+		return false
+	}
+	return !strings.Contains(name, ana.ModPath)
+}
+
+// acceptWrappers: repo functions that return (a value derived from) a library Accept result.
+func acceptWrappers(p *ana.Prog) map[*ssa.Function]bool {
+	out := map[*ssa.Function]bool{}
+	for _, f := range p.AllFuncs {
+		derived := map[ssa.Value]bool{}
+		ana.Instrs(f, func(in ssa.Instruction) {
+			if c, ok := in.(*ssa.Call); ok && isLibAccept(&c.Call) {
+				derived[c] = true
+			}
+		})
+		if len(derived) == 0 {
+			continue
+		}
+		for changed := true; changed; {
+			changed = false
+			ana.Instrs(f, func(in ssa.Instruction) {
+				v, ok := in.(ssa.Value)
+				if !ok || derived[v] {
+					return
+				}
+				switch x := in.(type) {
+				case *ssa.Extract:
+					if derived[x.Tuple] && x.Index == 0 {
+						derived[v], changed = true, true
+					}
+				case *ssa.TypeAssert:
+					if derived[x.X] {
+						derived[v], changed = true, true
+					}
+				case *ssa.ChangeInterface:
+					if derived[x.X] {
+						derived[v], changed = true, true
+					}
+				case *ssa.MakeInterface:
+					if derived[x.X] {
+						derived[v], changed = true, true
+					}
+				case *ssa.Phi:
+					for _, e := range x.Edges {
+						if derived[e] {
+							derived[v], changed = true, true
+						}
+					}
+				}
+			})
+		}
+		ana.Instrs(f, func(in ssa.Instruction) {
+			if ret, ok := in.(*ssa.Return); ok {
+				for _, rv := range ret.Results {
+					if derived[rv] {
+						out[f] = true
+					}
+				}
+			}
+		})
+	}
+	return out
+}
+
+// c08Accept: in an accept loop the accepted connection is only handed to a
+// goroutine (or closed, compared, logged): the accepting goroutine performs no
+// peer-paced operation on it, so one silent peer cannot stop later peers from
+// being accepted.
+func c08Accept(p *ana.Prog, r *ana.Result) {
+	wrappers := acceptWrappers(p)
+	n := 0
+	for _, f := range p.AllFuncs {
+		fname := ana.FuncName(f)
+		ana.Instrs(f, func(in ssa.Instruction) {
+			c, ok := in.(*ssa.Call)
+			if !ok {
+				return
+			}
+			callee := c.Call.StaticCallee()
+			if !(isLibAccept(&c.Call) || (callee != nil && wrappers[callee])) {
+				return
+			}
+			if !inLoop(f, c) {
+				return // a wrapper's own body, or a single accept
+			}
+			n++
+			// follow the accepted connection
+			conn := map[ssa.Value]bool{}
+			holders := map[*ssa.Alloc]bool{}
+			var work []ssa.Value
+			add := func(v ssa.Value) {
+				if !conn[v] {
+					conn[v] = true
+					work = append(work, v)
+				}
+			}
+			for _, ref := range ana.Referrers(c) {
+				if e, ok := ref.(*ssa.Extract); ok && e.Index == 0 {
+					add(e)
+				}
+			}
+			if c.Call.Signature().Results().Len() == 1 {
+				add(c)
+			}
+			var bad []string
+			badPos := ""
+			note := func(in ssa.Instruction, what string) {
+				bad = append(bad, what)
+				if badPos == "" {
+					badPos = posOf(p, in)
+				}
+			}
+			for len(work) > 0 {
+				v := work[len(work)-1]
+				work = work[:len(work)-1]
+				for _, ref := range ana.Referrers(v) {
+					switch x := ref.(type) {
+					case *ssa.Go:
+						// handed to a goroutine
+					case *ssa.Store:
+						if x.Val == v {
+							if a, ok := x.Addr.(*ssa.Alloc); ok {
+								if !holders[a] {
+									holders[a] = true
+									for _, r2 := range ana.Referrers(a) {
+										switch y := r2.(type) {
+										case *ssa.Store:
+										case *ssa.UnOp:
+											add(y)
+										case *ssa.MakeClosure:
+											for _, r3 := range ana.Referrers(y) {
+												if _, isGo := r3.(*ssa.Go); !isGo {
+													note(r3, "closure capturing the connection is not started with go")
+												}
+											}
+										case *ssa.DebugRef:
+										default:
+											note(r2, "connection variable used by "+r2.String())
+										}
+									}
+								}
+							} else {
+								note(x, "connection stored outside the loop's locals")
+							}
+						}
+					case *ssa.BinOp, *ssa.DebugRef:
+					case *ssa.TypeAssert, *ssa.ChangeInterface, *ssa.MakeInterface, *ssa.Phi, *ssa.Extract:
+						add(x.(ssa.Value))
+					case *ssa.MakeClosure:
+						for _, r3 := range ana.Referrers(x) {
+							if _, isGo := r3.(*ssa.Go); !isGo {
+								note(r3, "closure capturing the connection is not started with go")
+							}
+						}
+					case *ssa.Call:
+						name := ana.CalleeName(&x.Call)
+						switch {
+						case strings.HasSuffix(name, ").Close") || strings.HasSuffix(name, ").CloseWithError"):
+						case strings.HasSuffix(name, ").RemoteAddr") || strings.HasSuffix(name, ").LocalAddr"):
+						case strings.HasPrefix(name, "log/slog."):
+						case name == "crypto/tls.Server":
+							add(x)
+						default:
+							note(x, "calls "+ana.Short(name)+" on the accepted connection before handing it to a goroutine")
+						}
+					case *ssa.Defer:
+						note(x, "defers on the accepted connection inside the accept loop")
+					default:
+						note(ref, "uses the accepted connection in "+ref.String())
+					}
+				}
+			}
+			key := "accept-loop-only-dispatches:" + ana.Short(ana.CalleeName(&c.Call))
+			if len(bad) == 0 {
+				r.Ok("C08.accept", fname, key, posOf(p, c), "the accepted connection is only handed to a goroutine (or closed/logged); the accept loop does no peer-paced work")
+			} else {
+				sort.Strings(bad)
+				r.Violate("C08.accept", fname, key, badPos, "the goroutine that accepts connections "+bad[0]+": a peer that connects and stays silent stops every later peer from being accepted (the listener makes no progress)")
+			}
+		})
+	}
+	r.Floor("C08.accept.loops", n, 2)
 }
